@@ -222,6 +222,9 @@ func c13Impl(c lib.Case) []string {
 				out = append(out, "timeout")
 				continue
 			}
+			// a real crash leaves the temporary file of the interrupted write behind (the error path of Write, which
+			// this simulation takes, removes it): put one there, named as LocalDirectory.Write names it
+			r.inner.Write("checkpoints/.tmp-"+strings.TrimPrefix(c13Path(id), "checkpoints/")+"-1234567", strings.NewReader("cut-o"))
 			r.gate.kill()
 			out = append(out, r.boot())
 		case "lock":
@@ -351,13 +354,11 @@ func c13Impl(c lib.Case) []string {
 					break extras
 				}
 			}
-			// the received ids as a multiset: with two or more notification goroutines outstanding their order is
-			// up to the scheduler (D54, open; fixes/D54_demo_test.go shows [3 2] on the real store) and the driver
-			// tags exactly those lines; a single outstanding notification is compared as is
+			// in the order received (D54 repaired: the single announcer must deliver in decision order)
 			if bad {
-				out = append(out, "notify multi "+showU64s(got))
+				out = append(out, "notify multi "+showU64sRaw(got))
 			} else {
-				out = append(out, "notify "+showU64s(got))
+				out = append(out, "notify "+showU64sRaw(got))
 			}
 		case "crash":
 			r.gate.kill()
@@ -531,11 +532,13 @@ func c13Gen(r *lib.Rng, tier string, i int) lib.Case {
 		case k == 21:
 			c.Ops = append(c.Ops, lib.Pick(r, []string{"current", "files"}))
 		case k == 22:
-			if strings.Contains(c.Header, "dir") && len(ref.parked) > 0 && r.Chance(1, 2) {
-				// crash in the middle of a snapshot write on the real LocalDirectory (D60): the job does not restart
-				c.Ops = append(c.Ops, fmt.Sprintf("crashwrite %d", ref.parked[r.Intn(len(ref.parked))]), "current")
-				c.Tags = append(c.Tags, "D60", "crash")
-				return c
+			if len(ref.parked) > 0 && r.Chance(1, 2) {
+				// crash in the middle of a snapshot write (D60 repaired: nothing but a temporary file is left)
+				c.Ops = append(c.Ops, fmt.Sprintf("crashwrite %d", ref.parked[r.Intn(len(ref.parked))]))
+				ref.load()
+				crashed = true
+				c.Tags = append(c.Tags, "crashwrite")
+				break
 			}
 			if r.Chance(1, 2) {
 				c.Ops = append(c.Ops, "crash")
@@ -630,7 +633,7 @@ func c13Annotate(ops []string) []string {
 					break
 				}
 			}
-		case "crash":
+		case "crash", "crashwrite":
 			ref.load()
 		case "rems":
 			op = fmt.Sprintf("rems %d", len(ref.removes))
@@ -661,10 +664,20 @@ func c13FixedRaw(tier string) []lib.Case {
 		cs = append(cs, lib.Case{Header: hdr, Tags: []string{"D13", "overlap"}, Ops: []string{"init -", "ckpt", "write 1", "lock 1", "ckpt", "ckpt", "write 3", "lock 3",
 			"rems ?", "drain ?", "write 2", "lock 2", "rems ?", "drain ?", "current", "files", "remove 1", "crash", "ckpt"}})
 	}
-	// D60 (open): the job process is lost in the middle of LocalDirectory.Write (create + copy, no rename) for
-	// checkpoint 2; the cut-off file of 2 is the newest snapshot file and LoadCheckpoint fails on it
-	cs = append(cs, lib.Case{Header: "M C13 dir", Tags: []string{"D60", "crash"}, Ops: []string{"init -", "ckpt", "write 1", "lock 1", "ckpt", "crashwrite 2", "current"}})
-	cs = append(cs, lib.Case{Header: "M C13 dir", Tags: []string{"D60", "crash"}, Ops: []string{"init 5,6", "ckpt", "ckpt", "write 8", "crashwrite 7", "current"}})
+	// D60 (repaired): the job process is lost in the middle of the Write for checkpoint 2 (the real LocalDirectory in
+	// the dir cases). Only a temporary file is left; the restart resumes from checkpoint 1, and the leftover disturbs
+	// neither later publications nor the cleanup nor later restarts.
+	for _, hdr := range []string{"M C13 dir", "M C13 mem"} {
+		cs = append(cs, lib.Case{Header: hdr, Tags: []string{"D60", "crash", "crashwrite"}, Ops: []string{"init -", "ckpt", "write 1", "lock 1", "ckpt", "crashwrite 2",
+			"current", "files", "ckpt", "write 2", "lock 2", "rems ?", "remove 1", "drain ?", "files", "crash", "current"}})
+		cs = append(cs, lib.Case{Header: hdr, Tags: []string{"D60", "crash", "crashwrite"}, Ops: []string{"init 5,6", "ckpt", "ckpt", "write 8", "crashwrite 7", "current", "files"}})
+		cs = append(cs, lib.Case{Header: hdr, Tags: []string{"D60", "crash", "crashwrite"}, Ops: []string{"init -", "ckpt", "crashwrite 1", "current", "ckpt", "write 1", "lock 1", "current"}})
+	}
+	// D54 (repaired): notifications for 2 and 3 are both outstanding when the job receives them: [2] then [3]
+	for _, hdr := range []string{"M C13 mem", "M C13 dir"} {
+		cs = append(cs, lib.Case{Header: hdr, Tags: []string{"D54"}, Ops: []string{"init -", "ckpt", "write 1", "lock 1", "ckpt", "write 2", "lock 2",
+			"ckpt", "write 3", "lock 3", "ckpt", "write 4", "lock 4", "drain ?", "current"}})
+	}
 	// base64 boundary pairs: the older of two coexisting files may list first
 	b := lib.Case{Header: "M C13 mem", Tags: []string{"stale-files", "boundaries"}}
 	for _, x := range c13Boundaries {
